@@ -25,13 +25,13 @@ func init() {
 // case: "race <clients> <rounds> <seed> <flags>"  flags: config, churn, conns, lifecycle
 func genC14(tier string, seed uint64, emit func(string)) {
 	r := NewRng(seed)
-	n := 14
+	n := 16
 	if tier == "thorough" {
-		n = 84
+		n = 96
 	}
 	combos := []string{"config", "churn", "conns", "config,churn,conns", "config,churn,conns,lifecycle", "churn,lifecycle", "auth,config,churn", "auth,config,churn,conns,lifecycle",
 		"tls,flap,churn,lifecycle", "tls,config,churn,conns,lifecycle", "tls,flap,auth,config,churn,conns,lifecycle", "flap,churn,lifecycle",
-		"badclose,churn", "badclose,tls,config,churn,conns"}
+		"badclose,churn", "badclose,tls,config,churn,conns", "sweep,churn", "sweep,config,conns"}
 	for i := 0; i < n; i++ {
 		clients := []int{2, 4, 8, 16, 32}[r.Intn(5)]
 		emit(fmt.Sprintf("race %d %d %d %s", clients, 30+r.Intn(60), r.U64()%1000000, combos[i%len(combos)]))
@@ -234,6 +234,70 @@ func runC14(toks []string) Result {
 	case <-time.After(40 * time.Second):
 		close(stop)
 		stuck = "the workload did not finish within 40 s (a client or the lifecycle thread is blocked)"
+	}
+	if flags["sweep"] && stuck == "" {
+		// clients that connect (and stay idle) at the very moment Stop sweeps the registry: whatever the interleaving of
+		// accept, registration and the sweep, Stop returns, every accepted connection is closed and the registry is empty
+		for round := 0; round < 12 && stuck == ""; round++ {
+			if round > 0 {
+				if err := srv.Start(); err != nil {
+					stuck = "Start failed after a Stop: " + err.Error()
+					break
+				}
+			}
+			var mu sync.Mutex
+			var held []net.Conn
+			var dg sync.WaitGroup
+			begin := make(chan struct{})
+			for i := 0; i < 8; i++ {
+				dg.Add(1)
+				go func() {
+					defer dg.Done()
+					<-begin
+					for {
+						c, err := net.DialTimeout("tcp", addr, time.Second)
+						if err != nil {
+							return
+						}
+						mu.Lock()
+						held = append(held, c)
+						n := len(held)
+						mu.Unlock()
+						if n > 1500 {
+							return
+						}
+					}
+				}()
+			}
+			close(begin)
+			time.Sleep(time.Duration(200+137*(round%9)) * time.Microsecond)
+			swept := make(chan struct{})
+			go func() { srv.Stop(); close(swept) }()
+			timedOut := false
+			select {
+			case <-swept:
+			case <-time.After(3 * time.Second):
+				timedOut = true
+			}
+			dg.Wait()
+			survivors := len(srv.Conns())
+			mu.Lock()
+			for _, c := range held {
+				c.Close()
+			}
+			mu.Unlock()
+			if timedOut {
+				<-swept
+				stuck = fmt.Sprintf("Stop did not return within 3 s while idle clients were connecting; %d connection(s) were still registered and open after the registry had been swept", survivors)
+			} else if survivors != 0 {
+				stuck = fmt.Sprintf("%d connection(s) registered after Stop returned (connect storm during Stop)", survivors)
+			}
+		}
+		if stuck == "" {
+			if err := srv.Start(); err != nil {
+				stuck = "Start failed after a Stop: " + err.Error()
+			}
+		}
 	}
 	stopped := make(chan struct{})
 	go func() { srv.Stop(); close(stopped) }()
